@@ -353,7 +353,7 @@ func drawReply(rt *rapid.T) *replyPlan {
 
 func TestC08RunModel(t *testing.T) {
 	rec := simkit.NewRecorder(t, "C08", "run_model",
-		"rapid-drawn scripts over a real BuildClient in a synctest bubble: steps run (one BuildClient.Run = one synchronisation round, with the drawn CheckReadiness outcome and the drawn scheduler reply: execute(action)/idle/no desired state (with a drawn permission to really send it in reply to a Completed report, otherwise replaced by idle)/RPC error, valid next-sync in the past/now/future or an invalid/absent timestamp, optionally parked), emit n progress updates (incl. > channel capacity 10), finish (Execute returns its drawn response), advance clock, release (parked CheckReadiness / Synchronize / cancelled executor), shutdown (cancel the outer context). Oracle: instrumented executor (<=1 Execute active; predecessor cancelled and returned), request oracle at the scripted scheduler (state names the action last validly assigned, update objects and the Completed response are pointer-identical to what that action's Execute produced, non-OK => prefer_being_idle, Idle soliciting only after a successful CheckReadiness, prefer_being_idle on every request after shutdown; freshness/completion: a snapshot of the current action's update channel taken at Run entry, all goroutines parked, gives a lower bound for this and every later report about the action - Completed if its Execute had returned and the buffer was not full, else the newest progress update whose send had completed if the buffer was not empty), return oracle (no Execute active after a valid idle reply; may-terminate under a cancelled context only if the last delivered reply left the scheduler believing idle or now > last provided next-sync + 1 min). NON-TRIVIAL: a valid execute reply delivered while another Execute was still running (pre-emption) OR the outer context cancelled while an Execute was running; distinct by script hash")
+		"rapid-drawn scripts over a real BuildClient in a synctest bubble: steps run (one BuildClient.Run = one synchronisation round, with the drawn CheckReadiness outcome and the drawn scheduler reply: execute(action)/execute request that fails the worker's validation (unresolvable digest_function, instance_name_suffix with a reserved keyword or redundant slashes; ~1 in 6 execute replies)/execute with a malformed action_digest (not validated by BuildClient: a valid instruction)/idle/no desired state (with a drawn permission to really send it in reply to a Completed report, otherwise replaced by idle)/RPC error, valid next-sync in the past/now/future or an invalid/absent timestamp, optionally parked), emit n progress updates (incl. > channel capacity 10), finish (Execute returns its drawn response), advance clock, release (parked CheckReadiness / Synchronize / cancelled executor), shutdown (cancel the outer context). Oracle: instrumented executor (<=1 Execute active; predecessor cancelled and returned), request oracle at the scripted scheduler (state names the action last validly assigned, update objects and the Completed response are pointer-identical to what that action's Execute produced, non-OK => prefer_being_idle, Idle soliciting only after a successful CheckReadiness, prefer_being_idle on every request after shutdown; freshness/completion: a snapshot of the current action's update channel taken at Run entry, all goroutines parked, gives a lower bound for this and every later report about the action - Completed if its Execute had returned and the buffer was not full, else the newest progress update whose send had completed if the buffer was not empty), return oracle (no Execute active after a valid idle reply; may-terminate under a cancelled context only if the last delivered reply left the scheduler believing idle or now > last provided next-sync + 1 min; a rejected execute request counts as an execute reply for that rule, never starts Execute, leaves the previously assigned action in force and makes Run return an error). NON-TRIVIAL: a valid execute reply delivered while another Execute was still running (pre-emption) OR the outer context cancelled while an Execute was running; distinct by script hash")
 	rapid.Check(t, func(rt *rapid.T) {
 		var failure string
 		var foreign any
